@@ -49,6 +49,11 @@ enum Plan {
     Kth2(u8, u8),
     /// every push whose component is named `b` is rejected if it is a directory component (`dir`) / the last component (`leaf`)
     NameB { dir: bool, leaf: bool },
+    /// the k-th `push_directory()` call that announces the *former leaf* as directory (no `push()` before it in the same call) is
+    /// rejected — what gix-worktree's checkout delegate does when that leaf turns out to be a symlink or file
+    LeafDir(u8),
+    /// every such call is rejected
+    LeafDirAll,
 }
 
 #[derive(Serialize, Deserialize, Hash, Clone, Debug)]
@@ -59,7 +64,8 @@ struct History {
 
 #[derive(Debug, Clone, PartialEq)]
 enum Ev {
-    PushDir(PathBuf),
+    /// (path, rejected)
+    PushDir(PathBuf, bool),
     Push { rel: PathBuf, is_last: bool, rejected: bool },
     PopDir,
 }
@@ -68,6 +74,7 @@ struct Rec {
     root: PathBuf,
     plan: Plan,
     push_calls: u32,
+    leaf_dir_calls: u32,
     log: Vec<Ev>,
     /// `current() != root.join(current_relative())` seen inside a callback
     incoherent: Option<String>,
@@ -82,8 +89,22 @@ impl Rec {
 impl gix_fs::stack::Delegate for Rec {
     fn push_directory(&mut self, stack: &gix_fs::Stack) -> std::io::Result<()> {
         self.check(stack);
-        self.log.push(Ev::PushDir(stack.current_relative().to_owned()));
-        Ok(())
+        let former_leaf = !stack.current_relative().as_os_str().is_empty() && !self.log.iter().any(|e| matches!(e, Ev::Push { .. }));
+        let mut rejected = false;
+        if former_leaf {
+            self.leaf_dir_calls += 1;
+            rejected = match self.plan {
+                Plan::LeafDir(k) => self.leaf_dir_calls == k as u32,
+                Plan::LeafDirAll => true,
+                _ => false,
+            };
+        }
+        self.log.push(Ev::PushDir(stack.current_relative().to_owned(), rejected));
+        if rejected {
+            Err(std::io::Error::new(std::io::ErrorKind::Other, "former leaf rejected as directory"))
+        } else {
+            Ok(())
+        }
     }
     fn push(&mut self, is_last: bool, stack: &gix_fs::Stack) -> std::io::Result<()> {
         self.check(stack);
@@ -95,6 +116,7 @@ impl gix_fs::stack::Delegate for Rec {
             Plan::Kth(a) => k == a as u32,
             Plan::Kth2(a, b) => k == a as u32 || k == b as u32,
             Plan::NameB { dir, leaf } => name_b && ((is_last && leaf) || (!is_last && dir)),
+            Plan::LeafDir(_) | Plan::LeafDirAll => false,
         };
         self.log.push(Ev::Push { rel: stack.current_relative().to_owned(), is_last, rejected });
         if rejected {
@@ -176,13 +198,16 @@ fn plans(max_pushes: u8, pairs: bool) -> Vec<Plan> {
     v.push(Plan::NameB { dir: true, leaf: true });
     v.push(Plan::NameB { dir: true, leaf: false });
     v.push(Plan::NameB { dir: false, leaf: true });
+    v.push(Plan::LeafDir(1));
+    v.push(Plan::LeafDir(2));
+    v.push(Plan::LeafDirAll);
     v
 }
 
 fn eval_fs(_run: &Run, h: &History, rejected_total: &AtomicU64) -> Verdict {
     let root = PathBuf::from("/r");
     let mut stack = gix_fs::Stack::new(root.clone());
-    let mut rec = Rec { root: root.clone(), plan: h.plan.clone(), push_calls: 0, log: Vec::new(), incoherent: None };
+    let mut rec = Rec { root: root.clone(), plan: h.plan.clone(), push_calls: 0, leaf_dir_calls: 0, log: Vec::new(), incoherent: None };
     let mut model = Model::new();
     let mut open: Vec<PathBuf> = Vec::new();
     let mut rejections = 0u32;
@@ -205,6 +230,11 @@ fn eval_fs(_run: &Run, h: &History, rejected_total: &AtomicU64) -> Verdict {
                 _ => None,
             })
             .collect();
+        // a rejected announcement of the former leaf as directory: nothing may have been pushed, and nothing changes
+        let dir_rejected = rec.log.iter().any(|e| matches!(e, Ev::PushDir(_, true)));
+        if dir_rejected && !(common == model.cur.len() && common > 0 && !model.top_is_dir && comps.len() > common && pushes.is_empty()) {
+            return bad("push-sequence", at(&format!("push_directory for a former leaf was called where the model has none; log {:?}", rec.log)));
+        }
         let mut rejected_at = None;
         for (j, (rel, is_last, rejected)) in pushes.iter().enumerate() {
             let idx = common + j;
@@ -215,16 +245,18 @@ fn eval_fs(_run: &Run, h: &History, rejected_total: &AtomicU64) -> Verdict {
                 rejected_at = Some(idx);
             }
         }
-        if rejected_at.is_none() && pushes.len() != comps.len() - common {
+        if !dir_rejected && rejected_at.is_none() && pushes.len() != comps.len() - common {
             return bad("push-sequence", at(&format!("{} pushes, expected {}; log {:?}", pushes.len(), comps.len() - common, rec.log)));
         }
-        if res.is_ok() != rejected_at.is_none() {
+        if res.is_ok() != (rejected_at.is_none() && !dir_rejected) {
             return bad("result", at(&format!("returned {res:?} but a push was rejected at component {rejected_at:?}")));
         }
-        if rejected_at.is_some() {
+        if rejected_at.is_some() || dir_rejected {
             rejections += 1;
         }
-        model.step(&comps, rejected_at);
+        if !dir_rejected {
+            model.step(&comps, rejected_at);
+        }
         if stack.current_relative() != model.rel() || stack.current() != root.join(model.rel()) {
             return bad(
                 "current",
@@ -238,7 +270,9 @@ fn eval_fs(_run: &Run, h: &History, rejected_total: &AtomicU64) -> Verdict {
         }
         for ev in &rec.log {
             match ev {
-                Ev::PushDir(p) => open.push(p.clone()),
+                Ev::PushDir(p, false) => open.push(p.clone()),
+                // a rejected push_directory leaves nothing open
+                Ev::PushDir(_, true) => {}
                 Ev::PopDir => {
                     if open.pop().is_none() {
                         return bad("pop-underflow", at(&format!("pop_directory without an open directory; log {:?}", rec.log)));
@@ -351,14 +385,14 @@ fn eval_wt(_run: &Run, h: &WtHistory, rejected_total: &AtomicU64) -> Verdict {
 pub fn run(run: &'static Run) {
     run.rule(
         "fs-stack: histories = all sequences of <=2 (quick) / <=3 (thorough) relative paths over components {a,b,c} with depth <=3 (39 paths), all sequences of <=4 paths over components {a,b} depth <=3 (14 paths) \
-         and all sequences of <=5 / <=6 paths over {a,b} depth <=2 (6 paths), each x failure plan {none, k-th push call rejected (k<=4 quick, k<=6 thorough), (thorough) every pair of push calls rejected, component `b` rejected as directory / as leaf / both}; \
+         and all sequences of <=5 / <=6 paths over {a,b} depth <=2 (6 paths), each x failure plan {none, k-th push call rejected (k<=4 quick, k<=6 thorough), (thorough) every pair of push calls rejected, component `b` rejected as directory / as leaf / both, the 1st / 2nd / every push_directory() that announces the former leaf as directory rejected}; \
          thorough adds all sequences of 4 paths over {a,b,c} x {none, `b` rejected, 2nd push rejected} and all sequences of 5 paths over {a,b} depth <=3 x single-failure plans; \
          worktree-stack: all sequences of <=3 / <=4 paths over {a, b, .git (rejected by validation), f (existing file: rejected as directory)} depth <=2 through gix_worktree::Stack::at_path in checkout mode on a real directory; \
          after EVERY call: result, current()/current_relative(), the exact sequence of push() calls, and the set of directories pushed-but-not-popped are compared with the reference model; \
          non-trivial = at least one push was rejected in the history (or the plan is `none`)",
     );
-    run.assume("paths are normalized, relative, non-empty and terminal as the documentation of make_relative_path_current demands; only `push` is rejected (the property speaks of rejected pushes), push_directory never fails");
-    run.assume("reference model: the valid components are the longest accepted prefix of the last path; the top component counts as an open directory after a rejection (the parent directory), after popping back to it, or when it was pushed as a non-last component");
+    run.assume("paths are normalized, relative, non-empty and terminal as the documentation of make_relative_path_current demands; `push` is rejected, and `push_directory` only where it announces the former leaf of the previous path as directory (as gix-worktree's checkout delegate does); other push_directory calls never fail");
+    run.assume("reference model: the valid components are the longest accepted prefix of the last path; a rejected push_directory leaves nothing open and the leaf stays a leaf; the top component counts as an open directory after a rejected push (the parent directory), after popping back to it, or when it was pushed as a non-last component");
     run.budget_secs(run.pick(35.0, 540.0));
     let quick = run.quick();
     let rejected_total = AtomicU64::new(0);
